@@ -1,9 +1,9 @@
-import MpgsModel.Model.Handshake
+import MpgsModel.Model.Server
 import MpgsModel.Model.ToyAead
 import MpgsModel.Model.DriverUtil
 /-! Line-protocol driver for the Wire/Conn layers.  `lake env lean --run Driver/Conn.lean`
     (protocol: DESIGN.md appendix A; datagrams between endpoints are sealed with the toy AEAD) -/
-open Mpgs Mpgs.Util Mpgs.Bytes Mpgs.Wire Mpgs.Conn
+open Mpgs Mpgs.Util Mpgs.Bytes Mpgs.Wire Mpgs.Conn Mpgs.Server
 
 structure Ep where
   kind : String := "base"          -- base | csc (ClientServerConnection) | scc (ServerClientConnection)
@@ -14,6 +14,7 @@ structure Ep where
 structure St where
   sz : Sizes := ⟨1500⟩
   eps : List (String × Ep) := []
+  srv : Srv := {}
 
 def getEp (st : St) (n : String) : Option Ep := (st.eps.find? (fun p => p.1 == n)).map (·.2)
 def setEp (st : St) (n : String) (e : Ep) : St :=
@@ -199,6 +200,34 @@ def hsOf (ws : List String) : Hs :=
   | some ["cr", tok] => { bad with parseChallenge := fun _ => match tok.toNat? with | some t => .ok t | none => .error .exception }
   | _ => bad
 
+def hsOfOrc (orc : String) : Hs := hsOf (if orc == "-" then [] else ["orc=" ++ orc])
+
+def parseAddr (s : String) : Option Server.Addr :=
+  match s.splitOn ":" with
+  | [a, b] => do pure ((← a.toNat?), (← b.toNat?))
+  | _ => none
+
+def showAddr (a : Server.Addr) : String := s!"{a.1}:{a.2}"
+
+def actOf (s : String) : HAct :=
+  if s == "raise" then .raise else if s == "echo" then .echo else if s == "disc" then .disc
+  else if s == "echoRaise" then .echoRaise else if s == "discRaise" then .discRaise else .ok
+
+def parseActs (s : String) : List HAct := if s == "-" then [] else (s.splitOn ",").map actOf
+
+def showSEvent : SEvent → String
+  | .connect id a tok => s!"connect:{id}:{showAddr a}:{tok}"
+  | .message id sq p => s!"msg:{id}:{sq}:{digest p}"
+  | .disconnect id => s!"disc:{id}"
+  | .update => "update"
+  | .shutdown => "shutdown"
+  | .sendTo a h d => s!"send:{showAddr a}:{h.ptype.toNat}:{h.seq}:{h.count}:{d.length}"
+  | .dropEntry a => s!"drop:{showAddr a}"
+  | .contained w => "caught:" ++ (w.replace " " "_")
+
+def showPool (p : Pool) : String :=
+  lst (p.map (fun x => s!"{showAddr x.1}>{x.2.id}:{statusNum x.2.conn.status}:{x.2.conn.token}"))
+
 def roleOf (ep : Ep) (ws : List String) : Role :=
   if ep.kind == "csc" then clientRole (hsOf ws)
   else if ep.kind == "scc" then
@@ -233,6 +262,8 @@ def stepLine (st : St) (line : String) : St × List String :=
       let c := match kvNat rest "ss" with | some v => { c with seqSending := v } | none => c
       let c := match kvNat rest "sm" with | some v => { c with seqMessage := v } | none => c
       let c := match kvNat rest "sf" with | some v => { c with seqFragment := v } | none => c
+      let c := match kvInt rest "bp" with | some v => { c with bfPkt := { c.bfPkt with cur := v, bits := 0 } } | none => c
+      let c := match kvInt rest "bm" with | some v => { c with bfMsg := { c.bfMsg with cur := v, bits := 0 } } | none => c
       let c := match kvInt rest "tt" with | some v => { c with tempTimeout := v } | none => c
       let c := match kv rest "ccb" with | some v => { c with hasConnectCb := v == "1" } | none => c
       let c := match kv rest "pinned" with
@@ -331,6 +362,49 @@ def stepLine (st : St) (line : String) : St × List String :=
           | .ok p => s!"ok {showHdr p.hdr} msgs={showMsgList p.msgs}"
           | .error x => "err:" ++ wireErrName x])
     | _, _ => (st, ["bad-op"])
+  | "scfg" :: rest =>
+    let cfg : SCfg := {
+      keepAlive := (kvInt rest "ka").getD 96, outgoingTimeout := (kvInt rest "ot").getD 1024,
+      connTimeout := (kvInt rest "ct").getD 5120, tempTimeout := (kvInt rest "tt").getD 2048,
+      blocklist := match kv rest "block" with
+        | some b => if b == "-" then [] else (b.splitOn ",").filterMap String.toNat?
+        | none => [] }
+    ({ st with srv := { st.srv with cfg := cfg } }, [])
+  | "it" :: rest =>
+    -- one loop iteration: items=<addr>|<dspec>|<orc>|<draws>;...  (entry point applied to each)
+    match kvInt rest "tq", kvInt rest "ts" with
+    | some tq, some ts =>
+      let acts := parseActs ((kv rest "acts").getD "-")
+      let raw := (kv rest "items").getD "-"
+      let specs := if raw == "-" then [] else raw.splitOn ";"
+      let parsed : List (Option (Server.Addr × Bytes × String × List Nat)) := specs.map (fun sp =>
+        match sp.splitOn "|" with
+        | [a, dsp, orc, dr] => do
+          let addr ← parseAddr a
+          let d ← datagramOf st ["d=" ++ dsp] true
+          pure (addr, d, orc, if dr == "-" then [] else (dr.splitOn ",").filterMap String.toNat?)
+        | _ => none)
+      if parsed.any Option.isNone then (st, ["bad-item"])
+      else
+        let items := parsed.filterMap id
+        -- entry point
+        let (queued, drops) := items.foldl (fun (acc : List Item × List SEvent) it =>
+          match entry st.srv it.1 it.2.1 with
+          | some h => (acc.1 ++ [⟨it.1, h, it.2.1, hsOfOrc it.2.2.1, it.2.2.2⟩], acc.2)
+          | none => (acc.1, acc.2 ++ [SEvent.dropEntry it.1])) ([], [])
+        let (s', ev) := iter st.sz Toy.crypto st.srv tq ts queued acts
+        -- server emissions become referable as @S:k
+        let sends := ev.filterMap (fun e => match e with | .sendTo _ _ d => some d | _ => none)
+        let epS : Ep := (getEp st "S").getD ⟨"base", { isServer := true }, [], 0⟩
+        let epS' := sends.foldl (fun (e : Ep) d => { e with emitsRev := d :: e.emitsRev, nEmits := e.nEmits + 1 }) epS
+        let st' := setEp { st with srv := s' } "S" epS'
+        let evs := drops ++ ev
+        (st', [s!"ev={if evs.isEmpty then "-" else ",".intercalate (evs.map showSEvent)} conns={showPool s'.conns} temps={showPool s'.temps}"])
+    | _, _ => (st, ["bad-op"])
+  | "stop" :: rest =>
+    let acts := parseActs ((kv rest "acts").getD "-")
+    let ev := shutdownSweep st.srv.conns acts
+    ({ st with srv := { st.srv with conns := [] } }, [s!"ev={",".intercalate (ev.map showSEvent)}"])
   | ["take", e] =>
     -- application drains incoming_messages
     match getEp st e with
